@@ -144,6 +144,10 @@ def _ulist(name, n, elem="Issue"):
         ts = []
         for a in args:
             t = ctx.type_of(a)
+            if t is not None and t.name == "Opt":
+                # an optional argument denotes its value here (the clause guards the None case): one symbol whatever the static type
+                a = ctx.wrap(sort_of(t).val(ctx.term(a, t)), t.args[0])
+                t = t.args[0]
             ts.append(ctx.term(a, t))
         fn = z3.Function(name, *[x.sort() for x in ts], sort_of(ty))
         return ctx.wrap(fn(*ts), ty).sym
@@ -476,6 +480,7 @@ if z3 is not None:
         "string_issues_of": _ulist("string_issues_of", 3), "char_issues_of": _ulist("char_issues_of", 3),
         "canonical_issues_of": _ulist("canonical_issues_of", 1), "tag_rule_issues_of": _ulist("tag_rule_issues_of", 3),
         "def_issues_of": _ulist("def_issues_of", 2), "all_tags_of": _ulist("all_tags_of", 1, "HedTag"), "direct_tags_of": _ulist("direct_tags_of", 1, "HedTag"),
+        "value_rule_issues_of": _ulist("value_rule_issues_of", 2), "ext_char_issues_of": _ulist("ext_char_issues_of", 2),
         "derivative_unit_of": _derivative_unit_of, "float_parses": _float_parses, "float_of": _float_of, "SchemaEntry.has_attribute": _entry_has_attribute,
         "UnitClassEntry.has_attribute": _entry_has_attribute, "UnitEntry.has_attribute": _entry_has_attribute,
         "struct_equal": _struct_equal, "canon_of": _canon_of, "expansion_of": _expansion_of,
